@@ -356,7 +356,7 @@ def main(tier):
     chk = core.Check(PROP, 'exploration', tier)
     runner = core.Runner('asan')
     avoid = {e['avoid'] for e in chk.findings.open if e.get('avoid')}
-    n = 700 if tier == 'quick' else 40000
+    n = 700 if tier == 'quick' else 20000
     cases = []
     items = []
     for i in range(n):
@@ -382,7 +382,7 @@ def main(tier):
         def has_delete(node):
             return any(v == ('deleted',) for v in node.own.values())
         exp = [expected(root, p, has_delete) for p in paths]
-        steps = [{'op': 'vm', 'vm': 0, 'max_runtime_ms': 3000}]
+        steps = [{'op': 'vm', 'vm': 0, 'ops': 'basic', 'max_runtime_ms': 0}]
         for t in texts:
             steps.append({'op': 'cfg', 'vm': 0, 'src': t, 'nopp': True})
         q = []
@@ -390,10 +390,12 @@ def main(tier):
             q.append(query_src(p, k))
             if e[0] == 'class' and e[4] is not None:
                 q.append(own_src(p, 1000 + k, len(e[4])))
-        steps.append({'op': 'run', 'vm': 0, 'src': ';\n'.join(q), 'nopp': True})
+        # the SQF parser is quadratic in the number of statements (C10): the queries go in chunks
+        for c0 in range(0, len(q), 40):
+            steps.append({'op': 'run', 'vm': 0, 'src': ';\n'.join(q[c0:c0 + 40]), 'nopp': True, 'nq': len(q)})
         cases.append((texts, paths, exp, g.feats))
         items.append(steps)
-    results = core.run_items(runner, [], items, batch=10, base_cpu_ms=3000, item_cpu_ms=lambda it: 1200, counters=chk.counters, max_deaths=25)
+    results = core.run_items(runner, [], items, batch=10, base_cpu_ms=4000, item_cpu_ms=lambda it: 1500 + 10 * it[-1].get('nq', 60), counters=chk.counters, max_deaths=25)
     allfeats = set()
     from .c07 import parse_dump
     for i, ((texts, paths, exp, feats), r) in enumerate(zip(cases, results)):
@@ -411,10 +413,10 @@ def main(tier):
             errs = [l[2][:150] for st in bad_load for l in core.logs_of(st) if l[0] <= 1]
             chk.violation('load-failed|' + (errs[0].split('\t')[-1][:30] if errs else '?'), 'configuration #%d: a generated config text was rejected: %s' % (i, errs[:2] or bad_load[0].get('exc')), rep)
             continue
-        st = r[-1]
-        errs = [l for l in core.logs_of(st) if l[0] <= 1]
+        qsteps = r[1 + len(texts):]
+        errs = [l for st in qsteps for l in core.logs_of(st) if l[0] <= 1]
         obs = {}
-        for v in core.diag_values(core.logs_of(st)):
+        for v in [v_ for st in qsteps for v_ in core.diag_values(core.logs_of(st))]:
             try:
                 d = parse_dump(v)
             except Exception:
